@@ -22,8 +22,32 @@ fn roundtrip(ty: u8, c: &[u8]) -> Option<Option<Vec<u8>>> {
     })
 }
 
+/// INTEGER-as-u8 has many entry points (match-and-skip on Constructed and on Content, mandatory and
+/// optional): whichever of them accepts an encoding must accept the DER encoding of the value it matched.
+fn u8_matchers_canonical(c: &[u8]) -> bool {
+    if c.len() > 100 { return true }
+    let t = tlv(0x02, c);
+    for expected in [0u8, 1, 0x7f, 0x80, 0x81, 0xff, c.last().copied().unwrap_or(0), c.first().copied().unwrap_or(0)] {
+        let canon = tlv(0x02, &expected.to_encoded_bytes(Mode::Der));
+        let accepts = [
+            Constructed::decode(t.as_slice().into_source(), Mode::Der, |cons| cons.skip_u8_if(expected)).is_ok(),
+            Constructed::decode(t.as_slice().into_source(), Mode::Der, |cons| cons.skip_opt_u8_if(expected)).is_ok(),
+            Constructed::decode(t.as_slice().into_source(), Mode::Der, |cons| cons.take_value_if(bcder::Tag::INTEGER, |content| content.skip_u8_if(expected))).is_ok(),
+            Constructed::decode(t.as_slice().into_source(), Mode::Der, |cons| cons.take_u8()).ok() == Some(expected),
+            Constructed::decode(t.as_slice().into_source(), Mode::Der, |cons| cons.take_opt_u8()).ok() == Some(Some(expected)),
+            Constructed::decode(t.as_slice().into_source(), Mode::Der, |cons| cons.take_value_if(bcder::Tag::INTEGER, |content| content.to_u8())).ok() == Some(expected),
+        ];
+        if accepts.iter().any(|&a| a) && t != canon { return false }
+        if t == canon && !accepts.iter().all(|&a| a) { return false }
+    }
+    true
+}
+
 fn leaf_case(em: &mut Emitter, ty: u8, c: &[u8]) {
     em.case(501, &[num_arg(ty), bytes_arg(c)], || {
+        if ty == 5 && catch(|| u8_matchers_canonical(c)) != Some(true) {
+            return (Ints::new().n(-9), Oracle::Fail("a-u8-entry-point-accepts-a-non-canonical-encoding-or-rejects-the-canonical-one".into()), true)
+        }
         match roundtrip(ty, c) {
             Some(Some(w)) => (Ints::new().n(R_OK).bytes(&w), if w == c { Oracle::Pass } else { Oracle::Fail("der-reencoding-differs-from-accepted-input".into()) }, true),
             Some(None) => (Ints::new().n(R_CERR), Oracle::Pass, !c.is_empty()),
